@@ -14,18 +14,18 @@ func init() {
 
 // Packages that may touch the filesystem (frozen owner set, one reason each).
 var fsOwners = map[string]string{
-	"backend":         "path helpers (MkdirAll, MoveFile, Walk)",
-	"backend/posix":   "the posix backend",
-	"backend/meta":    "xattr / sidecar metadata stores",
-	"backend/scoutfs": "the scoutfs backend",
-	"auth":            "iam_internal / iam_s3_object: fixed file names under the configured IAM directory",
-	"s3log":           "configured audit log files",
-	"s3event":         "configured event-filter file",
-	"cmd/versitygw":   "command line: configured directories, test commands",
+	"backend":           "path helpers (MkdirAll, MoveFile, Walk)",
+	"backend/posix":     "the posix backend",
+	"backend/meta":      "xattr / sidecar metadata stores",
+	"backend/scoutfs":   "the scoutfs backend",
+	"auth":              "iam_internal / iam_s3_object: fixed file names under the configured IAM directory",
+	"s3log":             "configured audit log files",
+	"s3event":           "configured event-filter file",
+	"cmd/versitygw":     "command line: configured directories, test commands",
 	"tests/integration": "test client",
-	"debuglogger":     "stderr",
-	"metrics":         "none expected",
-	"backend/azure":   "none expected (blob API)",
+	"debuglogger":       "stderr",
+	"metrics":           "none expected",
+	"backend/azure":     "none expected (blob API)",
 }
 
 var fsFuncPrefixes = []string{"os.", "syscall.", "golang.org/x/sys/unix.", "github.com/pkg/xattr.", "io/ioutil.", "path/filepath.Walk", "path/filepath.Glob", "(*os.File)."}
@@ -596,8 +596,8 @@ func validatedListBefore(f *ssa.Function, call ssa.CallInstruction, dec ssa.Call
 func controlsC04() []Control {
 	return []Control{
 		{Name: "controller reads a file named by the key", Rule: "R-C04-1", File: "s3api/controllers/base.go",
-			Old: "\tpath := ctx.Path()\n\tif path[len(path)-1:] == \"/\" && key[len(key)-1:] != \"/\" {\n\t\tkey = key + \"/\"\n\t}\n\n\tif ctx.Request().URI().QueryArgs().Has(\"tagging\") {\n\t\terr := auth.VerifyAccess(ctx.Context(), c.be, auth.AccessOptions{\n\t\t\tReadonly:      c.readonly,\n\t\t\tAcl:           parsedAcl,\n\t\t\tAclPermission: auth.PermissionRead,",
-			New: "\tpath := ctx.Path()\n\tif path[len(path)-1:] == \"/\" && key[len(key)-1:] != \"/\" {\n\t\tkey = key + \"/\"\n\t}\n\tif b, err := os.ReadFile(key); err == nil && len(b) == 0 {\n\t\tkey = key + \"\"\n\t}\n\n\tif ctx.Request().URI().QueryArgs().Has(\"tagging\") {\n\t\terr := auth.VerifyAccess(ctx.Context(), c.be, auth.AccessOptions{\n\t\t\tReadonly:      c.readonly,\n\t\t\tAcl:           parsedAcl,\n\t\t\tAclPermission: auth.PermissionRead,",
+			Old:  "\tpath := ctx.Path()\n\tif path[len(path)-1:] == \"/\" && key[len(key)-1:] != \"/\" {\n\t\tkey = key + \"/\"\n\t}\n\n\tif ctx.Request().URI().QueryArgs().Has(\"tagging\") {\n\t\terr := auth.VerifyAccess(ctx.Context(), c.be, auth.AccessOptions{\n\t\t\tReadonly:      c.readonly,\n\t\t\tAcl:           parsedAcl,\n\t\t\tAclPermission: auth.PermissionRead,",
+			New:  "\tpath := ctx.Path()\n\tif path[len(path)-1:] == \"/\" && key[len(key)-1:] != \"/\" {\n\t\tkey = key + \"/\"\n\t}\n\tif b, err := os.ReadFile(key); err == nil && len(b) == 0 {\n\t\tkey = key + \"\"\n\t}\n\n\tif ctx.Request().URI().QueryArgs().Has(\"tagging\") {\n\t\terr := auth.VerifyAccess(ctx.Context(), c.be, auth.AccessOptions{\n\t\t\tReadonly:      c.readonly,\n\t\t\tAcl:           parsedAcl,\n\t\t\tAclPermission: auth.PermissionRead,",
 			More: []Edit{{"s3api/controllers/base.go", "import (\n", "import (\n\t\"os\"\n"}}, Expect: "s3api/controllers"},
 		{Name: "revert part of 18a6cbc: uploadId no longer validated", Rule: "R-C04-4", File: "s3api/middlewares/url-decoder.go",
 			Old: "\t\t\t!backend.IsOpaqueId(ctx.Query(\"uploadId\")) ||\n", New: "", Expect: "uploadId"},
